@@ -185,7 +185,7 @@ func digests() []digest {
 			eval: func(m proto.Message) []byte { return proto.Clone(m).(*bft.Message).SignBytes() },
 			outside: func(proto.Message) map[string]string {
 				out := map[string]string{"signature": "the signature itself"}
-				for _, f := range []string{"vrf", "high_qc", "last_double_sign_evidence", "vdf", "timestamp", "rcBuildHeight", "qc.results", "qc.results_hash", "qc.block", "qc.block_hash", "qc.proposer_key", "qc.signature"} {
+				for _, f := range []string{"header", "vrf", "high_qc", "last_double_sign_evidence", "vdf", "timestamp", "rcBuildHeight", "qc.results", "qc.results_hash", "qc.block", "qc.block_hash", "qc.proposer_key", "qc.signature"} {
 					out[f] = "a pacemaker message states the sender's view only; receivers read nothing else (TestC19aReceiver)"
 				}
 				return out
